@@ -305,7 +305,7 @@ func isTokenish(t types.Type) bool {
 // tokenSteps: how many `.Tokens` steps below one of fd's token parameters the
 // expression lies (-1 = cannot tell).
 func (c *Ctx) tokenSteps(fd *ast.FuncDecl, e ast.Expr, depth int) int {
-	if depth > 8 {
+	if depth > 24 {
 		return -1
 	}
 	switch x := unparen(e).(type) {
